@@ -7,12 +7,12 @@ IDS=$(python3 -c "import json;print(' '.join(c['property_id'] for c in json.load
 for s in ${SOAK_SEEDS-1 2 3 4 5}; do
   for p in $IDS; do
     t0=$(date +%s)
-    out=$(VERIF_SEED=$s ./check $p --tier quick 2>&1 | grep -E "^VIOLATION|^OK|^KNOWN" | tr '\n' ';' | cut -c1-300)
+    out=$(VERIF_SEED=$s ./check $p --tier quick 2>&1 | grep -E "^VIOLATION|^OK" | tr '\n' ';' | cut -c1-300)
     echo "seed=$s $p quick $(( $(date +%s)-t0 ))s: $out"
   done
 done
 for p in ${SOAK_THOROUGH-$IDS}; do
   t0=$(date +%s)
-  out=$(VERIF_SEED=0 timeout ${SOAK_TIMEOUT:-3000} ./check $p --tier thorough 2>&1 | grep -E "^VIOLATION|^OK|^KNOWN" | tr '\n' ';' | cut -c1-300)
+  out=$(VERIF_SEED=0 timeout ${SOAK_TIMEOUT:-3000} ./check $p --tier thorough 2>&1 | grep -E "^VIOLATION|^OK" | tr '\n' ';' | cut -c1-300)
   echo "seed=0 $p thorough $(( $(date +%s)-t0 ))s: $out"
 done
